@@ -3,8 +3,8 @@ package main
 import (
 	"fmt"
 	"go/token"
-	"strings"
 	"go/types"
+	"strings"
 
 	"golang.org/x/tools/go/ssa"
 )
@@ -38,7 +38,7 @@ func checkC07(c *Ctx) {
 		"declaration a DuplicateValue call lies on every cycle through the Declare call (one copy per name); (C07.dup) inside DuplicateValue no Element, slice or map loaded from the source list/dictionary " +
 		"(its value / keyOrder fields) reaches the result except through a recursive DuplicateValue call (taint flow with DuplicateValue as the only cleanser), for lists and dictionaries alike; objects, methods, types and 空 are returned by identity; " +
 		"(C07.obj) NewObject passes every class default through DuplicateValue; (C07.fresh) literal evaluation returns fresh allocations; (C07.store) no caller of Array.GetValue()/HashMap.GetValue()/GetKeyOrder() writes through the returned backing store. " +
-		"(C07.ctor) NewNumber / NewString / NewArray / NewHashMap / NewEmptyHashMap / NewObject return a value allocated by that very call; (C07.adopt) no store of Array.value / HashMap.value / HashMap.keyOrder stores another object's backing store. NOT decided: aliasing through method results used inside one expression chain, parameter and loop-variable passing (by reference in this implementation; the statement speaks of declaring and assigning)."
+		"(C07.ctor) NewNumber / NewString / NewArray / NewHashMap / NewEmptyHashMap / NewObject return a value allocated by that very call; (C07.adopt) no store of Array.value / HashMap.value / HashMap.keyOrder stores another object's backing store. NOT decided: aliasing through method results used inside one expression chain, parameter and loop-variable passing (by reference in this implementation; the statement speaks of declaring and assigning). (C07.objshare) Object.GetProperty returns the stored element itself, never a copy."
 	R.Assumptions = []string{"value.NewArray/NewHashMap/NewString/NewNumber/NewBool allocate new objects", "String, Number, Bool are immutable apart from the mutators inventoried in C16"}
 	u := c.Core()
 	u.buildSSA()
@@ -93,6 +93,40 @@ func checkC07(c *Ctx) {
 	ruleDupDeep(c, u, "C07.dup")
 	ruleNewObjectCopies(c, u, "C07.obj")
 	ruleFreshLiteralsAndStores(c, u)
+
+	// ---- C07.objshare: objects are shared by reference, so reading a property hands out the stored value itself:
+	// Object.GetProperty returns the element found in the property table (or the object), never something built
+	// from it (a copy would make every in-place change through the object act on a throw-away value)
+	if f := u.ssaFunc("pkg/value", "Object.GetProperty"); f != nil {
+		bad := ""
+		n := 0
+		tests := nilTests(f)
+		for _, b := range f.Blocks {
+			ret, ok := b.Instrs[len(b.Instrs)-1].(*ssa.Return)
+			if !ok || len(ret.Results) != 2 || !normalReturn(f, ret, tests) {
+				continue
+			}
+			for _, src := range allSources(retValue(ret, 0)) {
+				n++
+				switch x := src.(type) {
+				case *ssa.Parameter:
+					continue
+				case *ssa.Extract:
+					if lk, isLk := x.Tuple.(*ssa.Lookup); isLk && containerFieldOf(lk.X) == "Object.propList" {
+						continue
+					}
+				case *ssa.Lookup:
+					if containerFieldOf(x.X) == "Object.propList" {
+						continue
+					}
+				}
+				bad = u.pos(ret.Pos())
+			}
+		}
+		R.check(bad == "" && n >= 2, "C07.objshare", "pkg/value.Object.GetProperty", u.pos(f.Pos()), "a property read yields the stored element itself", "reading an object's property yields something other than the stored element (return at "+bad+"): in-place changes made through a variable holding the object (后增, 自增, 之X#1 = …) are not visible through the other variables holding it")
+	} else {
+		R.lost("C07.objshare", "pkg/value.Object.GetProperty")
+	}
 }
 
 // ruleDupDeep - DuplicateValue is a deep copy for lists and dictionaries, identity for objects
